@@ -111,7 +111,13 @@ def run(data):
                 if not isinstance(r, Quantity): bad = "not a Quantity"
                 elif type(r.magnitude) is not type(q.magnitude): bad = f"magnitude type {type(r.magnitude).__name__} instead of {type(q.magnitude).__name__}"
                 elif name in IDENTITY_CODECS and r.unit is not q.unit: bad = "unit is not the identical object"
-                elif not (r == q) and not (q.magnitude != q.magnitude): bad = "not equal to the original"
+                elif not (r == q) and not (q.magnitude != q.magnitude):
+                    # an int beyond 2**53 that comes back with the same magnitude in an equal-valued unit (kg for Kilo*Gram) compares unequal only
+                    # because one side is scaled as an int and the other through a float ratio: a floating-point tie, not a lost value
+                    tie = (isinstance(q.magnitude, int) and abs(q.magnitude) >= 2 ** 53 and r.magnitude == q.magnitude
+                           and Quantity(1, r.unit) == Quantity(1, q.unit))
+                    if tie: counts["float_ties"] = counts.get("float_ties", 0) + 1
+                    else: bad = "not equal to the original"
                 elif name in IDENTITY_CODECS and r.magnitude != q.magnitude and q.magnitude == q.magnitude: bad = "magnitude changed"
                 if bad: fails.append({"codec": name, "kind": "quantity", "object": describe(q), "got": describe(r), "what": bad, "spec": qs, "unit_text_ok": unit_text_ok(q.unit), "unit_text": str(q.unit)})
             except Exception as ex:  # noqa
